@@ -520,6 +520,18 @@ example : let f : FlowView := { kind := .dns, req := none, resp := none, method 
     leafReads (fun _ _ => none) ['b'] f = [[1]] ∧ leafReads (fun _ _ => none) ['m'] f = [] := by
   decide
 
+/-- The body operators on an HTTP flow without websocket data are the `bodyLeaf` of round 5 over the request and/or
+the response message: ~bq reads the request body, ~bs the response body, ~b both - each through `searched`
+(decoded when the Content-Encoding can be applied, as received when it cannot, nothing when streamed). -/
+theorem body_ops_http (search : RxSpec → Bytes → Bool) (dec : Str → Bytes → Option Bytes) (f : FlowView) (a : Str)
+    (hk : f.kind = FKind.http) (hw : f.ws = none) (rq rs : HMsg) (hq : f.req = some rq) (hs : f.resp = some rs) :
+    rexV search dec ['b', 'q'] a f = bodyLeaf (search (specOf ['b', 'q'] a)) dec [rq.body] ∧
+    rexV search dec ['b', 's'] a f = bodyLeaf (search (specOf ['b', 's'] a)) dec [rs.body] ∧
+    rexV search dec ['b'] a f = bodyLeaf (search (specOf ['b'] a)) dec [rq.body, rs.body] := by
+  have hh : isHttp f = true := by simp [isHttp, hk]
+  cases h1 : searched dec rq.body <;> cases h2 : searched dec rs.body <;>
+    simp [rexV, leafReads, hh, wsPart, hw, hq, hs, bodySubj, bodyLeaf, h1, h2]
+
 /-! ### the fuel is immaterial -/
 
 /-- Any fuel larger than the text gives the same parse: `pExpr` is one function, the fuel only makes the recursion
